@@ -19,7 +19,7 @@ func init() {
 			"escaped path and raw query and never reads the fragment (nor URL.String/Redacted); the method/Range gate is false for non-GET and for Range and dominates every " +
 			"store access; every key on the exchange comes from the one key function; default ports are http->80, https->443 and a port is elided only when equal to the " +
 			"scheme's default; escapes are re-encoded with an upper-case alphabet.",
-		NotDecided: "injectivity of the authority serialisation beyond the bracket rule C03.7 (a host whose IP-literal brackets were stripped is re-bracketed before it is joined with ':port'); dot-segment handling inside net/url.",
+		NotDecided: "injectivity of the authority serialisation beyond the bracket rule C03.7 (a host whose IP-literal brackets were stripped is re-bracketed before it is joined with ':port'); dot-segment handling inside net/url (only that it is applied after the unreserved escapes were decoded: C07.9/C09.10).",
 		Rules: []Rule{
 			{ID: "C03.1", Desc: "unreserved set exact", Run: ruleC03_1, MinSites: 1},
 			{ID: "C03.2", Desc: "key dependence: scheme, host, path, query; not fragment", Run: ruleC03_2, MinSites: 4},
@@ -578,7 +578,7 @@ func ruleC03_7(c *Ctx) {
 	// each returned key is judged on its own: a second way of building the key (opaque request targets) is not covered
 	// by the re-bracketing of the first
 	type perRet struct {
-		sources            []string
+		sources          []string
 		rebracket, colon bool
 	}
 	var verdicts []perRet
@@ -796,7 +796,27 @@ func ruleDotAfterDecode(c *Ctx, rule string) {
 		if c.An.dependsOnCallFull(v, isNorm) {
 			return true
 		}
+		if u, ok := v.(*ssa.UnOp); ok && u.Op == token.MUL {
+			if al, ok := u.X.(*ssa.Alloc); ok && fed(al, depth+1) {
+				return true
+			}
+		}
+		if call, ok := v.(*ssa.Call); ok {
+			for _, cal := range c.P.RepoCallees(call) {
+				for _, b := range cal.Blocks {
+					if r, ok := b.Instrs[len(b.Instrs)-1].(*ssa.Return); ok && len(r.Results) > 0 && fed(c.An.RetVal(r, 0), depth+1) {
+						return true
+					}
+				}
+			}
+		}
 		if al, ok := v.(*ssa.Alloc); ok {
+			// the whole value stored at once (the result of a helper that prepares the reference)
+			for _, st := range c.P.cellStores(al) {
+				if fed(st.Val, depth+1) {
+					return true
+				}
+			}
 			if refs := al.Referrers(); refs != nil {
 				for _, r := range *refs {
 					if fa, ok := r.(*ssa.FieldAddr); ok && fa.Referrers() != nil {
